@@ -196,66 +196,108 @@ class DriverError(Exception):
     pass
 
 
-def run_driver(requests, cfg_line=None, env=True, max_rounds=64):
-    """Run the compiled model on a batch of request lines.
+class Driver(object):
+    """A persistent driver process.  Environment answers are kept by the
+    driver across requests (they are deterministic functions of the key)."""
 
-    Environment queries (`Q key`) are answered with CPython and the request is
-    re-sent with the enlarged table, until every request has an `R` answer.
-    Returns the list of response strings (without the leading 'R ').
-    """
-    n = len(requests)
-    tables = [dict() for _ in range(n)]
-    answers = [None] * n
-    pending = list(range(n))
-    rounds = 0
-    stats = {'env_queries': 0, 'rounds': 0}
-    while pending:
-        rounds += 1
-        if rounds > max_rounds:
-            raise DriverError('environment resolution did not converge')
-        lines = []
+    def __init__(self, cfg_line=None):
+        import threading
+        self.threading = threading
+        self.p = subprocess.Popen([DRIVER], stdin=subprocess.PIPE,
+                                  stdout=subprocess.PIPE, stderr=subprocess.PIPE)
+        self.known = 0
         if cfg_line:
-            lines.append(cfg_line)
-        for i in pending:
-            if tables[i]:
-                lines.append(requests[i] + ' | ' + ' '.join(
-                    '%s %s' % kv for kv in tables[i].items()))
+            r = self._exchange([cfg_line])
+            if r != ['R ok']:
+                raise DriverError('driver rejected cfg: %r' % r)
+
+    def close(self):
+        try:
+            self.p.stdin.close()
+            self.p.wait(timeout=10)
+        except Exception:   # noqa
+            self.p.kill()
+
+    def _exchange(self, lines):
+        """send lines, read one response per line (writer thread avoids
+        pipe-buffer deadlock)"""
+        data = ('\n'.join(lines) + '\n').encode()
+        err = []
+
+        def w():
+            try:
+                self.p.stdin.write(data)
+                self.p.stdin.flush()
+            except Exception as e:   # noqa
+                err.append(e)
+        t = self.threading.Thread(target=w)
+        t.start()
+        out = []
+        for _ in range(len(lines)):
+            l = self.p.stdout.readline()
+            if not l:
+                t.join()
+                raise DriverError('driver died: %s' % self.p.stderr.read().decode()[-500:])
+            out.append(l.decode().rstrip('\n'))
+        t.join()
+        if err:
+            raise DriverError('write to driver failed: %s' % err[0])
+        return out
+
+    def batch(self, requests, max_rounds=400):
+        n = len(requests)
+        answers = [None] * n
+        pending = list(range(n))
+        stats = {'env_queries': 0, 'rounds': 0}
+        while pending:
+            stats['rounds'] += 1
+            if stats['rounds'] > max_rounds:
+                raise DriverError('environment resolution did not converge')
+            if stats['rounds'] == 1:
+                out = self._exchange(['@%d %s' % (i, requests[i]) for i in pending])
             else:
-                lines.append(requests[i])
-        p = subprocess.run([DRIVER], input=('\n'.join(lines) + '\n').encode(),
-                           stdout=subprocess.PIPE, stderr=subprocess.PIPE)
-        if p.returncode != 0:
-            raise DriverError('driver exited with %s: %s'
-                              % (p.returncode, p.stderr.decode()[-500:]))
-        out = p.stdout.decode().split('\n')
-        if out and out[-1] == '':
-            out.pop()
-        if cfg_line:
-            if not out or out[0] != 'R ok':
-                raise DriverError('driver rejected cfg: %r' % out[:1])
-            out = out[1:]
-        if len(out) != len(pending):
-            raise DriverError('driver answered %d of %d lines'
-                              % (len(out), len(pending)))
-        nxt = []
-        for i, resp in zip(pending, out):
-            if resp.startswith('R '):
-                answers[i] = resp[2:]
-            elif resp == 'R':
-                answers[i] = ''
-            elif resp.startswith('Q '):
-                key = resp[2:]
-                if key.startswith('BAD-ANSWER') or key in tables[i]:
-                    raise DriverError('driver cannot use answer for %r' % key)
-                tables[i][key] = env_answer(key)
-                stats['env_queries'] += 1
-                nxt.append(i)
-            else:
-                raise DriverError('driver protocol error on %r: %r'
-                                  % (requests[i][:200], resp[:200]))
-        pending = nxt
-    stats['rounds'] = rounds
-    return answers, stats
+                out = self._exchange(['!%d' % i for i in pending])
+            nxt = []
+            need = {}
+            for i, resp in zip(pending, out):
+                if resp.startswith('R '):
+                    answers[i] = resp[2:]
+                elif resp == 'R':
+                    answers[i] = ''
+                elif resp.startswith('Q '):
+                    key = resp[2:]
+                    if key.startswith('BAD-ANSWER'):
+                        raise DriverError('driver cannot use answer for %r' % key)
+                    if key not in need:
+                        need[key] = env_answer(key)
+                    nxt.append(i)
+                else:
+                    raise DriverError('driver protocol error on %r: %r'
+                                      % (requests[i][:200], resp[:200]))
+            if need:
+                stats['env_queries'] += len(need)
+                self.known += len(need)
+                items = list(need.items())
+                lines = []
+                for k in range(0, len(items), 200):
+                    lines.append('env ' + ' '.join('%s %s' % kv for kv in items[k:k + 200]))
+                acks = self._exchange(lines)
+                if any(a != 'R ok' for a in acks):
+                    raise DriverError('driver rejected env answers')
+            pending = nxt
+        if self.known > 300000:
+            self._exchange(['envclear'])
+            self.known = 0
+        return answers, stats
+
+
+def run_driver(requests, cfg_line=None):
+    """Run the compiled model on a batch of request lines (one-shot process)."""
+    d = Driver(cfg_line)
+    try:
+        return d.batch(requests)
+    finally:
+        d.close()
 
 
 # --------------------------------------------------------------------------
